@@ -29,9 +29,16 @@ def dict_to_path(as_dict):
     entities = [None] * len(as_dict["entities"])
     # run constructor for dict kwargs
     for entity_index, entity in enumerate(as_dict["entities"]):
-        entities[entity_index] = loaders[entity["type"]](
-            points=entity["points"], closed=entity["closed"]
-        )
+        if not isinstance(entity, dict):
+            # already an entity object
+            entities[entity_index] = entity
+        elif entity["type"] == "Line":
+            # whether a line is closed follows from its points
+            entities[entity_index] = Line(points=entity["points"])
+        else:
+            entities[entity_index] = loaders[entity["type"]](
+                points=entity["points"], closed=entity["closed"]
+            )
     result["entities"] = entities
 
     return result
